@@ -169,6 +169,16 @@ theorem Inert.cancelKindFor_fst {w0 w : World} (h : Inert w0 w) (hi : EvInv w.ev
   simp only [Bool.and_eq_true, decide_eq_true_eq] at hm
   exact ha (hm.1.2.symm.trans hg.1)
 
+/-- cancelling the pending user events (pattern cancel): none of them is a grant -/
+theorem Inert.cancelUserAll_fst {w0 w : World} (h : Inert w0 w) (hi : EvInv w.ev) : Inert w0 (cancelUserAll w).1 := by
+  unfold cancelUserAll
+  refine Inert.cancelFold _ h ?_
+  intro k hk e he hke hg
+  obtain ⟨e', he', ha', rfl⟩ := mem_userPending.1 hk
+  have : e = e' := HashHeap.eq_of_key_eq hi.part.keysNodup he he' hke
+  subst this
+  exact absurd (ha'.symm.trans hg.1) (by decide)
+
 /-! ### object updates that do not change what is available (recording) -/
 
 def resNeed (x : Res) : Nat := if x.holder.isNone then 1 else 0
